@@ -262,6 +262,70 @@ def run(rep, tier):
     some_edges = [m["Some"] for (sb, place, adt, m, els) in az.variant_edges() if adt == "core::option::Option" and "Some" in m and "Candidate" in az.locals[place.l]]
     ok = bool(allow_aggs) and bool(some_edges) and all(any(az.dominates(s, b) for s in some_edges) for b in allow_aggs)
     rep.ob("R19.4", "default-deny|EffectiveAuthority::authorize", ok, "an allow decision is built only on the edge where some candidate granted the permission", az.file + ":%d" % az.line)
+    # ------------------------------------------------------------------ R19.5 only live authority rows contribute
+    rep.rule("R19.5", "authority resolution uses live rows only: every Principal / Delegation / Grant row fetched one at a time in decision.rs has *its own* "
+                      "status compared with status::ACTIVE; the live list loaders filter status = ACTIVE in every query", floor=8)
+    rows = {a for a, d in prog.adts.items() if re.search(r"::(PrincipalRow|DelegationRow|GrantRow)$", a)}
+    if len(rows) < 3:
+        raise CheckerFault("governance row types not found: %r" % sorted(rows))
+
+    def _const_defs(f, o):
+        return {x[1].get("def") for x in f.slice_back_op(o) if x[0] == "const" and x[1].get("def")}
+    nload = 0
+    for f in prog.fns.values():
+        if not f.file.endswith("governance/decision.rs"):
+            continue
+        for e in f.calls():
+            if e.kind == "ref" or not re.search(r"GovernanceStore", e.name or ""):
+                continue
+            src = e.poll_dest if e.poll_dest is not None else e.dest
+            if src is None:
+                continue
+            ty = f.locals[src.l]
+            hit = [r for r in rows if r in ty]
+            if not hit or "alloc::vec::Vec<" in ty:
+                continue
+            nload += 1
+            rep.saw(f, 1)
+            der = f.derived_locals([src.l])
+            ok = False
+            for c in f.calls():
+                if not (re.search(r"PartialEq.*::(eq|ne)$", c.name or "") and len(c.args) >= 2):
+                    continue
+                for i in (0, 1):
+                    p_ = core.op_place(c.args[i])
+                    if p_ is None or "status" not in f.slice_fields(c.args[i]):
+                        continue
+                    from_row = p_.l in der or any(o[0] == "call" and o[1] is e for o in f.slice_back_op(c.args[i]))
+                    if from_row and any((d or "").endswith("status::ACTIVE") for d in _const_defs(f, c.args[1 - i])):
+                        ok = True
+            rep.ob("R19.5", "row-status-checked|%s|%s" % (prog.outer_fn(f).path.rsplit("::", 1)[1], e.name.rsplit("::", 1)[1]), ok,
+                   "the %s fetched here contributes to an authority decision without its own status being compared with status::ACTIVE "
+                   "(a revoked / suspended row would keep conferring authority)" % hit[0].rsplit("::", 1)[1], e.where())
+    if nload < 4:
+        rep.fault("R19.5: only %d single-row loads found in decision.rs" % nload)
+    for lname in ("grants_for", "delegations_to", "bindings_of", "groups_of"):
+        cands = [f for f in prog.fns.values() if re.search(r"GovernanceStore::%s$" % lname, f.path)]
+        if not cands:
+            rep.ob("R19.5", "loader-filters-active|%s" % lname, False, "anchor: live list loader %s not found" % lname, "governance/store.rs")
+            continue
+        f = prog.fn(cands[0].path)
+        bodies = [f] + prog.closures_of(f)
+        nq = sum(len(b.calls_named(r"GovernanceStore::all_rows$")) for b in bodies)
+        nact = 0
+        for b in bodies:
+            for blk in b.live_blocks():
+                ops = [o for st in b.stmts(blk) if st[0] == "A" for o in core._rvalue_operands(st[2])]
+                t = b.term(blk)
+                if t["k"] == "call":
+                    ops += t["args"]
+                for o in ops:
+                    k = core.op_const(o)
+                    if k and (k.get("def") or "").endswith("status::ACTIVE"):
+                        nact += 1
+        rep.saw(f, len(f.events))
+        rep.ob("R19.5", "loader-filters-active|%s" % lname, nq >= 1 and nact >= nq,
+               "%s runs %d row queries but filters status = ACTIVE in %d of them" % (lname, nq, nact), f.file + ":%d" % f.line)
     return rep.finish(EXPLAIN)
 
 
